@@ -107,6 +107,8 @@ def TA(T=2, nw=5, nc=3, sym_k=False, sym_g=False, beta_sym=True, lower=False, in
             out.append(sy["k"] <= 0)  # some choice is feasible in every state (c=1 <= w-k for w>=1)
         if "g" in sy:
             out += [sy["g"] >= 0, sy["g"] <= 1]
+        if "lo" in sy and T > 1:
+            out.append(sy["lo"] <= 1)  # the smallest grid choice c=1 satisfies the lower bound
         if "bmin" in sy and T > 1:
             out.append(sy["bmin"] <= 0)  # c=1 stays feasible in every state (w - 1 + g >= 0 >= bmin)
         return out
